@@ -30,7 +30,8 @@ def _std1(v):
 
 
 # statistics that can be undefined (NaN) on a segment: NaN is neither below the lower nor above the upper bound
-NPSTATS = {"mean": np.mean, "median": np.median, "std": np.std, "var": np.var, "max": np.max, "absmean": lambda v: float(np.abs(v).mean()),
+# (the last two call METHODS of what they are handed: a segment arrives as a plain NumPy array, whose std / var are the population ones)
+NPSTATS = {"std-method": lambda v: float(v.std()), "var-method": lambda v: float(v.var()), "mean": np.mean, "median": np.median, "std": np.std, "var": np.var, "max": np.max, "absmean": lambda v: float(np.abs(v).mean()),
            "std-ddof1": _std1, "mean-if-3": lambda v: float(np.mean(v)) if len(v) >= 3 else float("nan")}
 
 
@@ -162,13 +163,18 @@ def gen_real(rng, nmax):
         x[-1] += 12.0  # an outlier in the last sample
     return {"n": n, "X": x, "det": rng.choice(["pelt", "mw", "sbs"]), "m": rng.choice([1, 1, 2, 3]), "stat": rng.choice(list(NPSTATS)),
             "lo": rng.choice([-2.0, -0.5, 0.0, 0.5]), "width": rng.choice([0.0, 0.5, 1.0, 3.0]), "container": rng.choice(["frame", "series", "array"]),
-            "retune": rng.random() < 0.3}
+            "retune": rng.random() < 0.3,
+            # the wrapped detector tunes its threshold on the training data, and the same anomaliser was fitted before on OTHER data
+            # of the same shape
+            "tuned": rng.random() < 0.3}
 
 
 def mk_real(c, scale=0.5):
     from skchange.change_detectors import PELT, MovingWindow, SeededBinarySegmentation
 
     m = c["m"]
+    if c.get("tuned") and not c.get("retune") and c["det"] != "pelt":
+        scale = None
     return {"pelt": lambda: PELT(min_segment_length=m, penalty_scale=scale), "mw": lambda: MovingWindow(bandwidth=m, threshold_scale=scale),
             "sbs": lambda: SeededBinarySegmentation(min_segment_length=m, threshold_scale=scale)}[c["det"]]()
 
@@ -181,6 +187,8 @@ def impl_real(c):
     try:
         user = mk_real(c, 5.0 if c["retune"] else 0.5)
         det = StatThresholdAnomaliser(user, stat=stat, stat_lower=c["lo"], stat_upper=c["lo"] + c["width"])
+        if c.get("tuned") and not c["retune"]:
+            det.fit(wrap(c, [v * -0.01 + 1.0 for v in c["X"]][::-1]))  # (much smaller changes: a threshold tuned on these would be far too low)
         det.fit(X)
         if c["retune"]:  # the user re-tunes the detector they passed in and fits again
             det.predict(X)
